@@ -241,6 +241,18 @@ def check_jitter(ctx):
         okf = fnm is not None and norm.U(norm.subst(fnm, e)) == f"{rdn}.fieldnames" and len(calls_named(f, "writeheader")) == 1
         ctx.ob(6, "K3", "after sorting, every collected row of every pipeline is written, with the input's own columns and a header", okw and okf, f, wl[0] if wl else f.node,
                construct="write sorted pipelines", detail=f"write loops ok: {okw}; fieldnames from the reader: {okf}")
+        # the output exists only as the product of collect -> sort -> write: no successful way through the command goes around the sort,
+        # and nothing else produces the output file
+        exits0 = {n.id for n in g.nodes if n.ast is not None and isinstance(n.ast, ast.Expr) and isinstance(n.ast.value, ast.Call) and norm.call_name(n.ast.value) == "exit"}
+        byp = g.path_avoiding(g.entry.id, {g.exit.id}, {g.node_of(sorts[0]).id} | exits0) if sorts else []
+        params_ = f.params()
+        outp = params_[1] if len(params_) > 1 else "output_file"
+        outnames = {outp} | {k for k, v in e.items() if outp in norm.names_in(v)}
+        other_out = [c for c in own_nodes(f.node) if isinstance(c, ast.Call) and norm.call_name(c) in ("copyfile", "copy", "copy2", "move", "rename", "replace", "write_text", "write_bytes", "link_to", "symlink_to")
+                     and any(isinstance(x, ast.Name) and x.id in outnames for a_ in list(c.args) + [k.value for k in c.keywords] + ([c.func.value] if isinstance(c.func, ast.Attribute) else []) for x in ast.walk(a_))]
+        ctx.ob(6, "K3", "every successful run of jitter goes through the sort, and the output file is produced only by writing the sorted pipelines", byp is None and not other_out, f,
+               other_out[0] if other_out else (sorts[0] if sorts else f.node), construct="no way around collect-sort-write",
+               detail=("every path to a normal return passes the sort" if byp is None else f"bypass: {g.describe_path(byp)}") + f"; other producers of the output: {[norm.U(c)[:60] for c in other_out]}")
         # rows of a pipeline: first row starts the list, later rows appended
         rowlists = [n for n in ast.walk(rl) if isinstance(n, ast.Assign) and isinstance(n.value, ast.List) and len(n.value.elts) == 1 and norm.is_name(n.value.elts[0], rowv)]
         rapp = [c for c in ast.walk(rl) if isinstance(c, ast.Call) and isinstance(c.func, ast.Attribute) and c.func.attr == "append" and c.args and norm.is_name(c.args[0], rowv)]
